@@ -186,9 +186,10 @@ func doPartial(s *xmpp.Session, form string) error {
 }
 
 type handlerLog struct {
-	mu      sync.Mutex
-	ops     []*opRec
-	refused int // handler invocations that first attempted refused writes
+	mu        sync.Mutex
+	ops       []*opRec
+	refused   int // handler invocations that first attempted refused writes
+	abandoned int // handler invocations that stopped in the middle of their reply
 }
 
 func run(c *core.Case) {
@@ -257,6 +258,19 @@ func run(c *core.Case) {
 			Kids: []any{&elem{Name: xml.Name{Space: nsTop, Local: "r"}, Kids: []any{"reply " + marker}}}}
 		var err error
 		switch mode {
+		case "abandoned":
+			// the handler gives up in the middle of its reply: the session must
+			// not let later elements become children of the unfinished one
+			rec.partial, rec.Entry = true, "Partial"
+			toks := top.tokens(nil)
+			for _, tok := range toks[:len(toks)-2] {
+				if err = t.EncodeToken(tok); err != nil {
+					break
+				}
+			}
+			hl.mu.Lock()
+			hl.abandoned++
+			hl.mu.Unlock()
 		case "refused+tokens":
 			// a write the encoder refuses (the error is ignored, as a handler that
 			// copies tokens blindly would): it must leave no trace, and the reply
@@ -355,7 +369,7 @@ func run(c *core.Case) {
 	go func() {
 		defer wg.Done()
 		ir := core.NewRand(core.SubSeed(c.Seed, "C05", c.Index, "inject"))
-		modes := []string{"tokens", "encode", "encodeelement", "none", "refused+tokens"}
+		modes := []string{"tokens", "encode", "encodeelement", "none", "refused+tokens", "abandoned"}
 		for k := 0; k < nInject; k++ {
 			id := fmt.Sprintf("h%d", k)
 			m := modes[ir.Intn(len(modes))]
@@ -479,6 +493,7 @@ func run(c *core.Case) {
 		}
 	}
 	c.Count("handler_replies_after_refused_writes", hl.refused)
+	c.Count("handler_replies_abandoned_in_mid_element", hl.abandoned)
 	for _, rec := range hl.ops {
 		all[rec.Marker] = rec
 		flat = append(flat, rec)
@@ -563,7 +578,7 @@ func run(c *core.Case) {
 			// the call that was made to fail half-way: what it left on the wire (a
 			// truncated but closed element, or nothing) is not judged, the calls
 			// after it are
-			if rec.Err == "" && rec.Form != "TokenWriter:closed-mid-element" {
+			if rec.Err == "" && rec.Form != "TokenWriter:closed-mid-element" && rec.Form != "abandoned" {
 				c.Violate("wire:partial-accepted:"+rec.Form, "%s returned nil although its argument failed half-way", rec.Form)
 			}
 			continue
@@ -665,7 +680,7 @@ func trunc(s string) string {
 
 // Prop returns the C05 check.
 func Prop() *core.Prop {
-	req := []string{"histories", "histories_with_partial_failure", "partial:Send:reader-fails", "partial:SendElement:payload-reader-fails", "partial:Encode:xmlstream.Marshaler-fails", "partial:Encode:xmlstream.WriterTo-fails", "partial:TokenWriter:closed-mid-element", "component_streams", "invalid_argument_calls", "handler_replies_after_refused_writes", "calls_overlapping_another_actor", "elements_spanning_several_writes", "auto_replies", "wire_stanzas"}
+	req := []string{"histories", "histories_with_partial_failure", "partial:Send:reader-fails", "partial:SendElement:payload-reader-fails", "partial:Encode:xmlstream.Marshaler-fails", "partial:Encode:xmlstream.WriterTo-fails", "partial:TokenWriter:closed-mid-element", "component_streams", "invalid_argument_calls", "handler_replies_after_refused_writes", "handler_replies_abandoned_in_mid_element", "calls_overlapping_another_actor", "elements_spanning_several_writes", "auto_replies", "wire_stanzas"}
 	for _, e := range []string{"Send", "SendElement", "Encode", "EncodeElement", "TokenWriter", "HandlerReply",
 		"SendIQ", "SendIQElement", "EncodeIQ", "EncodeIQElement", "UnmarshalIQ", "UnmarshalIQElement", "IterIQ", "IterIQElement",
 		"SendMessage", "SendMessageElement", "EncodeMessage", "EncodeMessageElement",
